@@ -89,17 +89,23 @@ _add(PropertySpec(
 
 CE = "superrec2.compute.exhaustive"
 _add(PropertySpec(
-    "C01", files=["compute_super"],
-    targets=[f"{MRC}:ReconciliationOutput.node_event", f"{MRC}:ReconciliationOutput._cost_rec", f"{MRC}:ReconciliationOutput.cost"],
-    level="exploration", standins=["reconciliation:thl-exh-vs-brute-force", "thl-step-functions:recurrence-contract-at-runtime"],
-    technique="bounded stand-in (thl / exhaustive / generate_all against an independent brute-force enumeration and recount) "
-              "plus contract-based deductive verification of the cost evaluator the solvers re-rank with; the THL table contracts are not discharged yet",
-    not_decided=["Bellman contracts of _compute_thl_try_speciation / _compute_thl_try_duplication_transfer / _compute_thl_table / _decode_thl_table, "
-                 "reconcile_thl, reconcile_exhaustive and generate_all are NOT discharged: bounded stand-in only"],
+    "C01", files=["compute_super", "thl"],
+    targets=[f"{CR}:_compute_thl_try_speciation", f"{CR}:_compute_thl_try_duplication_transfer", f"{DP}:Table.entry",
+             f"{DP}:Entry.update", f"{DP}:Entry.combine", f"{DP}:Entry.__iter__",
+             f"{MRC}:ReconciliationOutput.node_event", f"{MRC}:ReconciliationOutput._cost_rec", f"{MRC}:ReconciliationOutput.cost",
+             f"{TR}:LowestCommonAncestor.is_ancestor_of", f"{TR}:LowestCommonAncestor.distance"],
+    level="proof", standins=["reconciliation:thl-exh-vs-brute-force", "thl-step-functions:recurrence-contract-at-runtime", "dynamic_programming:Table-proxies"],
+    technique="contract-based deductive verification of the two THL step functions (Bellman recurrence of the documented event model, value and ALL / ANY tag clauses, frame) "
+              "from the real AST, of the entry operations they use and of the cost evaluator the results are ranked by; table fill / decode / re-ranking / exhaustive enumerator: "
+              "bounded stand-in against an independent brute-force enumeration and recount",
+    not_decided=["_compute_thl_table (fill order), _decode_thl_table, reconcile_thl (re-ranking), reconcile_exhaustive and generate_all are NOT discharged: bounded stand-in only",
+                 "the lower-bound theorem 'Bellman-closed table => minimum over all valid reconciliations' (L2) is not proved; covered by the bounded comparison with brute force",
+                 "Table / TableProxy / EntryProxy: ASSUMED contracts over an abstract cell map (validated by the bounded Table-proxies stand-in)"],
 ))
 _add(PropertySpec(
-    "C05", files=["compute_super"],
-    targets=[f"{DP}:Entry.update", f"{DP}:Entry.combine", f"{DP}:Entry.__iter__", f"{DP}:Entry.infos"],
+    "C05", files=["compute_super", "thl"],
+    targets=[f"{DP}:Entry.update", f"{DP}:Entry.combine", f"{DP}:Entry.__iter__", f"{DP}:Entry.infos",
+             f"{CR}:_compute_thl_try_speciation", f"{CR}:_compute_thl_try_duplication_transfer", f"{DP}:Table.entry"],
     level="proof", standins=["reconciliation:thl-exh-vs-brute-force", "labelled-solvers:all-any-vs-optimal-set",
                             "thl-step-functions:recurrence-contract-at-runtime", "spfs-entry:recurrence-contract-at-runtime", "uspfs-entry:recurrence-contract-at-runtime"],
     technique="contract-based deductive verification of the tag clauses of Entry.update / combine / __iter__ (ALL keeps exactly the optimal tags, ANY exactly one); "
